@@ -229,7 +229,7 @@ func Keywords(dispatcher string, keywords []string, floorName string) Rule {
 				_ = fi
 				for _, fname := range strings.Split(x.field, "|") {
 					for i := 0; i < st.NumFields(); i++ {
-						if st.Field(i).Name() != fname {
+						if core.FieldName(st, i) != fname {
 							continue
 						}
 						for _, m := range []string{"Validate", "Applies"} {
